@@ -1,3 +1,15 @@
+//! vf-manifest: manifest-level checks (C30 decompile/compile round trip, C31 compiler totality,
+//! C36 static validation vs. the bucket/proof lifecycle, C37 resource assertions).
+
+pub mod c30;
+pub mod c31;
+pub mod c36;
+pub mod c37;
+pub mod cgen;
+pub mod lifecycle;
+pub mod mgen;
+pub mod vgen;
+
 pub fn checks() -> Vec<vf_core::Check> {
-    vec![]
+    vec![c30::check(), c31::check(), c36::check(), c37::check()]
 }
